@@ -73,7 +73,7 @@ fn corpus(ev: &mut Ev, opts: &Opts) {
         let lines: Vec<String> = j["lines"].as_array().map(|a| a.iter().filter_map(|x| x.as_str().map(String::from)).collect()).unwrap_or_default();
         let expected: Vec<Option<String>> = j["expected"].as_array().map(|a| a.iter().map(|x| x.as_str().map(String::from)).collect()).unwrap_or_else(|| vec![None; lines.len()]);
         let family: &'static str = Box::leak(format!("corpus:{}", j["name"].as_str().unwrap_or("?")).into_boxed_str());
-        let prog = progs::Program { family, lines, expected, confluent: true };
+        let prog = progs::Program { family, lines, expected, confluent: true, must_reject: false };
         let schedules = j["schedules"].as_u64().unwrap_or(20) as usize;
         let mut r = Rng::for_case(opts.seed ^ 0xC06C, fi as u64);
         run_sim_case(ev, &prog, &mut r, opts.tier.pick(schedules, schedules * 5), "corpus");
@@ -126,6 +126,12 @@ fn main() {
         ev.set_extra("model_requests", json!(model.requests));
     } else {
         ev.hit("lockstep:skipped-no-model");
+    }
+
+    // 2c. must-reject probe
+    {
+        let mut r = Rng::for_case(opts.seed ^ 0x9B0B, 0);
+        run_sim_case(&mut ev, &progs::probe_tail_in_tuple(), &mut r, 1, "probe");
     }
 
     // 3. generated programs under the simulator
